@@ -335,7 +335,10 @@ class ChangeBlock(object):
             raise ChangelogCreateError("Changes not specified")
         for change in self.changes():
             block += change + "\n"
-        if not self._no_trailer:
+        # A block that was cut off before its trailer line is written back without
+        # one -- unless an author or date has been assigned since.
+        if (not self._no_trailer
+                or self.author is not None or self.date is not None):
             block += " --"
             if self.author is not None:
                 block += " " + self.author
